@@ -762,8 +762,10 @@ pub fn preprocess_str<T: AsRef<Path>, U: AsRef<Path>, V: BuildHasher>(
                 skip_nodes.push(x.into());
                 skip = true;
 
-                let (_, ref x) = x.nodes;
-                let locate: Locate = x.try_into().unwrap();
+                let (_, ref keyword) = x.nodes;
+                // Only the keyword itself is replaced by synthesised text; the
+                // whitespace after it is copied from the file and keeps its origin.
+                let locate: Locate = keyword.nodes.0;
                 let x = locate.str(s);
                 if x.starts_with("__FILE__") {
                     ret.push::<PathBuf>(
@@ -775,6 +777,16 @@ pub fn preprocess_str<T: AsRef<Path>, U: AsRef<Path>, V: BuildHasher>(
                     );
                 } else if x.starts_with("__LINE__") {
                     ret.push::<PathBuf>(&x.replace("__LINE__", &format!("{}", locate.line)), None);
+                }
+                for x in keyword {
+                    match x {
+                        RefNode::WhiteSpace(x) => {
+                            let locate: Locate = x.try_into().unwrap();
+                            let range = Range::new(locate.offset, locate.offset + locate.len);
+                            ret.push(locate.str(&s), Some((path.as_ref(), range)));
+                        }
+                        _ => {}
+                    }
                 }
             }
             _ => (),
